@@ -104,6 +104,8 @@ pub fn gen_case(seed: u64, idx: u64) -> HistorySpec {
             (1, "restore"),
             (1, "add_column"),
             (1, "drop_column"),
+            (1, "rename_column"),
+            (1, "detached_append"),
         ]);
         let op = match kind {
             "append" => Op::Append { ids: alloc.take(rng.urange(1, 5)), salt: rng.next_u64() | 1 },
@@ -132,7 +134,15 @@ pub fn gen_case(seed: u64, idx: u64) -> HistorySpec {
             },
             "compact" => Op::Compact { defer_remap: false },
             "compact_defer" => Op::Compact { defer_remap: true },
-            "create_index" => Op::CreateIndex { col: *rng.pick(&["v", "id", "w"]), name: format!("idx{}", k + 1) },
+            "create_index" => {
+                if rng.chance(1, 3) {
+                    Op::CreateIndex { col: "w", name: format!("bm{}", k + 1) }
+                } else {
+                    Op::CreateIndex { col: *rng.pick(&["v", "id", "w"]), name: format!("idx{}", k + 1) }
+                }
+            }
+            "rename_column" => Op::RenameColumn { from: "s".into(), to: format!("s_r{}", k + 1) },
+            "detached_append" => Op::DetachedAppend { ids: alloc.take(rng.urange(1, 3)), salt: rng.next_u64() | 1 },
             "optimize_indices" => Op::OptimizeIndices,
             "update_config" => Op::UpdateConfig {
                 key: if shared_cfg_key { "vk".into() } else { format!("vk{}", k + 1) },
@@ -173,7 +183,8 @@ pub fn gen_case(seed: u64, idx: u64) -> HistorySpec {
     HistorySpec {
         name: format!("c03-{seed}-{idx}"),
         stable_row_ids: rng.bool(),
-        v2_manifest_paths: rng.chance(1, 4),
+        // detached commits need the V2 manifest naming scheme
+        v2_manifest_paths: rng.chance(1, 4) || actors.iter().any(|a| matches!(a.1, Op::DetachedAppend { .. })),
         frags,
         rows_per_frag: rpf,
         pre_ops,
@@ -223,6 +234,11 @@ async fn one_case(report: &Report, seed: u64, idx: u64) {
                 report.count(&format!("diagnostic_error_class_{c}_{}", r.op.kind()), 1);
                 if std::env::var("E_CONC_DEBUG").is_ok() {
                     eprintln!("case {idx}: {}", r.describe());
+                    if c == "IO" {
+                        for l in out.sched.brief(400) {
+                            eprintln!("    {l}");
+                        }
+                    }
                 }
             }
         }
